@@ -156,9 +156,9 @@ def gen_multilinear_comps(rng, dim, n_single, n_sum, linear_too=True):
     comps = []
     single = []
     if linear_too:
-        comps.append([(Fr(1), [("a", Fr(1), Fr(0))] * dim)])                       # constant 1
-        for e in range(dim):                                                         # coordinate functions x_e
-            comps.append([(Fr(1), [("a", Fr(0), Fr(1)) if d == e else ("a", Fr(1), Fr(0)) for d in range(dim)])])
+        # all 2^dim multilinear monomials: 1, x_e, x_e x_f, ...
+        for mask in itertools.product([0, 1], repeat=dim):
+            comps.append([(Fr(1), [("a", Fr(0), Fr(1)) if mask[d] else ("a", Fr(1), Fr(0)) for d in range(dim)])])
     for _ in range(n_single):
         t = (Fr(1), [("a", rand_dyadic(rng), rand_dyadic(rng)) for _ in range(dim)])
         single.append(t)
@@ -183,7 +183,7 @@ def make_scripted_class():
         """pseudo-random error keyed by (seed, round, dimension, start, end); `rounds` is advanced by the harness at
         every refine() call; in a `stop round` every error is 0 so that the run stops (error <= tol)"""
 
-        def __init__(self, seed, power, is_global):
+        def __init__(self, seed, power, is_global, multi=None):
             super().__init__()
             self.is_global = is_global
             self.seed = seed
@@ -191,6 +191,10 @@ def make_scripted_class():
             self.round = 0
             self.stop_round = None
             self.after_eval = None
+            # multi = p: prescribe the BENEFIT (error / evaluations): with probability p an object gets a benefit within
+            # the refinement margin of the maximum, so that one refine() call refines several objects (splits and
+            # extends in the same round)
+            self.multi = multi
 
         def calc_global_error(self, data, grid_scheme):
             return None
@@ -203,7 +207,12 @@ def make_scripted_class():
             key = "%d:%d:%s:%s:%s" % (self.seed, self.round, getattr(ro, "this_dim", -1),
                                       np.asarray(ro.start, dtype=float).tobytes().hex(),
                                       np.asarray(ro.end, dtype=float).tobytes().hex())
-            return random.Random(key).random() ** self.power + 1e-6
+            r = random.Random(key)
+            if self.multi is not None:
+                target = 0.92 + 0.08 * r.random() if r.random() < self.multi else 0.3 * r.random()
+                ev = getattr(ro, "evaluations", 0) or 0
+                return target * (ev if ev > 0 else 1)
+            return r.random() ** self.power + 1e-6
 
     return Scripted
 
@@ -537,6 +546,26 @@ def gen_es_case(ctx, thorough):
             "peak": [r.randint(1, 15) / 16 for _ in range(dim)], "sharp": r.choice([4, 40, 400])}
 
 
+def gen_esmulti_case(ctx, thorough):
+    """extend-split with split_single_dim=True and prescribed benefits such that one refinement round contains several
+    refinements: multi-dimension splits of areas that were not refined yet followed (later container positions) by
+    extends that raise lmax; symmetric set-up (same non-unit interval in every dimension, peak on the diagonal) so that
+    the twin errors of several dimensions are within the 0.9 threshold of get_split_dims"""
+    r = ctx.rng
+    dim = r.choice([2, 2, 2, 3])
+    lmin, lmax = r.choice([(1, 2), (1, 2), (1, 3), (2, 3)])
+    if dim == 3:
+        lmin, lmax = r.choice([(1, 2), (2, 3)])
+    dom1 = list(r.choice([(-1.0, 2.0), (-1.0, 1.0), (0.0, 2.0), (1.0, 3.0), (0.5, 1.5), (0.0, 1.0)]))
+    t = r.randint(1, 15) / 16
+    diag = r.random() < 0.75
+    return {"strategy": "es", "family": "multi", "dim": dim, "lmin": lmin, "lmax": lmax, "dom": [dom1] * dim,
+            "version": 0, "automatic_extend_split": r.random() < 0.15, "split_single_dim": True,
+            "before_extend": r.choice([1, 1, 2]), "estimator": "scripted", "multi": r.choice([0.4, 0.6, 0.8]),
+            "seed": r.randrange(10 ** 9), "power": 1, "rounds": r.randint(2, 4),
+            "peak": [t] * dim if diag else [r.randint(1, 15) / 16 for _ in range(dim)], "sharp": r.choice([0.5, 4, 40])}
+
+
 def run_es(ctx, drv, case):
     from sparseSpACE.Grid import TrapezoidalGrid
     from sparseSpACE.GridOperation import Integration
@@ -565,7 +594,7 @@ def run_es(ctx, drv, case):
         op = Integration(f, grid=grid, dim=dim, log_level=50, print_level=50)
         Scripted = make_scripted_class()
         if case["estimator"] == "scripted":
-            ec = Scripted(case["seed"], case["power"], False)
+            ec = Scripted(case["seed"], case["power"], False, case.get("multi"))
         else:
             ec = ErrorCalculatorExtendSplit()
         sa = SpatiallyAdaptiveExtendScheme(a, b, number_of_refinements_before_extend=case["before_extend"], version=case["version"],
@@ -853,8 +882,8 @@ def run_unit_1d(ctx, drv, n):
 
 
 # ------------------------------------------------------------------------------------------------ entry points
-RUNNERS = {"dw": run_dw, "es": run_es, "cell": run_cell, "escont": run_escont}
-GENERATORS = {"dw": gen_dw_case, "es": gen_es_case, "cell": gen_cell_case, "escont": gen_escont_case}
+RUNNERS = {"dw": run_dw, "es": run_es, "cell": run_cell, "escont": run_escont, "esmulti": run_es}
+GENERATORS = {"dw": gen_dw_case, "es": gen_es_case, "cell": gen_cell_case, "escont": gen_escont_case, "esmulti": gen_esmulti_case}
 
 
 def run(ctx):
